@@ -151,10 +151,10 @@ def run(ctx):
                 continue
             comp = r.compiler
             syms = []
-            for name, (_tok, _v) in comp.symbols.items():
+            for name, (tok, _v) in comp.symbols.items():
                 if name.startswith(".internal"):
-                    idx = int(name[9:].partition(".")[0])
-                    fname = comp.internal_prefix_to_state[idx]["filename"]
+                    # the file a symbol belongs to: where its defining token stands
+                    fname = tok.ctx_start.filename
                     syms.append((fname, name[9:].partition(".")[2], r.symbols[name]))
             # ---- correspondence with the model
             lst_reqs.append("lst " + " ".join("%s/%s/%d" % (nl(map(ord, f)), nl(map(ord, n)), v) for f, n, v in syms))
